@@ -363,7 +363,11 @@ class DataSource(metaclass=ABCMeta):
         if not target_only:
             results.extend(self.query(filters + [Filter('source_ref', '=', obj_id)]))
         if not source_only:
-            results.extend(self.query(filters + [Filter('target_ref', '=', obj_id)]))
+            target_filters = filters + [Filter('target_ref', '=', obj_id)]
+            if not target_only:
+                # (a relationship from the object to itself was found above)
+                target_filters.append(Filter('source_ref', '!=', obj_id))
+            results.extend(self.query(target_filters))
 
         return results
 
